@@ -9,6 +9,7 @@ use common::Emitter;
 mod c03;
 mod c15;
 mod compilep;
+mod resolvep;
 mod stages;
 mod store;
 mod tirgen;
@@ -84,7 +85,10 @@ fn main() {
             let mut em = Emitter::new(&mut out, opts.only);
             compilep::run(&opts, &mut em, "C14");
             stages::run_c14(&opts, &mut em);
+            resolvep::run_c14(&opts, &mut em);
         }
+        "C05" => resolvep::run_c05(&opts, &mut Emitter::new(&mut out, opts.only)),
+        "C20" => resolvep::run_c20(&opts, &mut Emitter::new(&mut out, opts.only)),
         "C06" => stages::run_c06(&opts, &mut Emitter::new(&mut out, opts.only)),
         "C07" => stages::run_c07(&opts, &mut Emitter::new(&mut out, opts.only)),
         _ => usage(),
